@@ -10,7 +10,8 @@ RULE = ('Hypothesis-generated DEF models rendered to text in the supported subse
         'coordinate, extension values, vias without/with orientation (regular nets) and via arrays DO n BY m STEP dx dy (special nets), wire options; '
         'random whitespace/newlines/comments. Oracle: the model itself (round trip text -> DefFile): every extracted attribute equals the model, '
         'net.vias[via] equals the multiset of absolute positions with wildcards resolved and arrays expanded, net.wires[layer] equals the per-segment '
-        'point lists (compared after resolving wildcards, so resolved and as-written forms are both accepted; width for special nets). '
+        'point lists (compared after resolving wildcards, so resolved and as-written forms are both accepted; width for special nets). Every text is parsed twice '
+        'in a row and both results are compared with the model. '
         'non-trivial: a net with >= 2 segments, a wildcard after a via, and a via array with n, m >= 2; distinct by SHA-1 of the model.')
 ASSUMPTIONS = ['supported subset only: non-negative integer coordinates, one ROUTED statement per net, ROW with exactly one of DO/BY different from 1',
                'order inside net.vias[via] is not specified: compared as multisets']
@@ -217,11 +218,15 @@ def resolve(points):
 def prop(m):
     from kyupy import def_file
     text = render(m)
-    d = def_file.parse(text)
+    obs = compare(m, def_file.parse(text), '')
+    compare(m, def_file.parse(text), 'same text parsed a second time: ')      # extraction is a function of the text alone
+    return obs
 
+
+def compare(m, d, ctx):
     def eq(what, got, exp):
         if got != exp:
-            raise Violation(f'{what}: extracted {got!r}, file states {exp!r}')
+            raise Violation(f'{ctx}{what}: extracted {got!r}, file states {exp!r}')
 
     eq('VERSION', d.version, m['version']); eq('DIVIDERCHAR', d.dividerchar, m['divider']); eq('BUSBITCHARS', d.busbitchars, m['busbit'])
     eq('DESIGN', d.design, m['design'])
@@ -290,4 +295,4 @@ def prop(m):
     return Obs(multi and wild_after_via and arr, labels)
 
 
-PARTS = [Part('roundtrip', prop, strategy=models, quick=(8, 150), thorough=(16, 2000))]
+PARTS = [Part('roundtrip', prop, strategy=models, quick=(8, 110), thorough=(16, 2000))]
